@@ -292,6 +292,24 @@ namespace ratio
         case Undefined: // we enforce the xi variable..
             slv.take_decision(xi);
             break;
+        case True: // the plan has been adapted while xi was standing: the execution bounds which had been enforced above the level the solver has backtracked to are gone, we enforce them again..
+            for (const auto &adapt : adaptations)
+                if (slv.get_sat_core().value(adapt.second.sigma_xi) == True)
+                    for (const auto &bnds : adapt.second.bounds)
+                        if (!propagate_bounds(*bnds.first, *bnds.second, adapt.second.sigma_xi))
+                        { // what has been executed so far is not compatible with the new plan: we look for another one..
+                            if (!backtrack_analyze_and_backjump())
+                                xi_violated = true;
+                            else
+                                slv.solve(); // notice that, in case of success, we get back here..
+                            return;
+                        }
+            if (!slv.get_sat_core().propagate())
+            {
+                xi_violated = true;
+                return;
+            }
+            break;
         }
         switch (slv.get_sat_core().value(xi))
         {
